@@ -43,6 +43,13 @@ def make_cases(run):
     cases.append(("b:no-include-disallowed", [two] + full + ["shmem 1"], "boundary"))
     cases.append(("b:stale-caches", ["flags 1", two] + full + ["pre robj 1001 0 0", "shmem 0"], "boundary"))
     cases.append(("b:plain-pu1", ["src synthetic pu:1", "shmem 0"], "boundary"))
+    # size sweep: 536 consecutive sizes 8 bytes apart: (header + body) visits every 8-byte residue of the page, each size
+    # with get_length == model value (no slack) and the write next to the PROT_NONE page
+    for lo in range(0, 536, 67):
+        cases.append(("sweep:pu1:%d-%d" % (lo, lo + 66), ["src synthetic pu:1", "sweep %d 67" % lo], "sweep"))
+    if not quick:
+        for lo in range(0, 1072, 67):
+            cases.append(("sweep:2numa:%d-%d" % (lo, lo + 66), ["flags 1", two] + full + ["sweep %d 67" % lo], "sweep"))
     nsyn = 40 if quick else 1500
     for i in range(nsyn):
         desc = rng.choice(G.SYN) if rng.random() < 0.5 else S.gen_synthetic(rng, max_pus=32)
@@ -123,7 +130,14 @@ def findings_of(r, expect, cfg_lines):
     wfs = [l for l in lines if l.startswith("wf ")]
     if len(wfs) >= 2 and wfs[0].startswith("wf ok") and not wfs[1].startswith("wf ok"):
         out.append(("wf:adopted", "wf_check accepts the original and rejects the adopted copy: " + wfs[1][:200], False))
+    step = None
     for l in lines:
+        if l.startswith("sweep step="):
+            step = int(l.split("=")[1])
+            continue
+        if step is not None and (l.startswith(("len DIFF", "fits NO", "used DIFF")) or (l.startswith("write ") and "rc=0" not in l) or (l.startswith("file ") and "BAD" in l)):
+            r.setdefault("bad_steps", []).append(step)
+            l = l + "   [sweep step %d: root info value of %d bytes]" % (step, 7 + 8 * step)
         if l.startswith("length ") and "rc=0" not in l:
             out.append(("get_length-fails", l, False))
         elif l.startswith("len DIFF"):
@@ -200,7 +214,9 @@ def check(run, replay=None):
         if r is None:
             run.violation("not-run:" + kind, "case did not run (earlier crash in the same shard)", script, no_input=True)
             continue
-        adopted = any(l.startswith("adopt rc=0") for l in r["lines"])
+        adopted = any(l.startswith("adopt rc=0") for l in r["lines"]) or (kind == "sweep" and any(l.startswith("write rc=0") for l in r["lines"]))
+        if kind == "sweep":
+            run.bump("sweep-sizes", sum(1 for l in r["lines"] if l.startswith("sweep step=")))
         run.count(name + "|" + "|".join(l for l in r["lines"] if l.startswith(("len ", "used ", "file ", "reject ", "adopt ", "obscmp ", "call ", "destroyed"))),
                   nontrivial=adopted, sample={"case": name, "lines": [l[:100] for l in r["lines"] if l.startswith(("length ", "file ", "adopt ", "obscmp "))][:5]},
                   kind=kind + (":adopted" if adopted else ":not-adopted"))
@@ -210,13 +226,15 @@ def check(run, replay=None):
         if adopted and not fs:
             run.cov["traces_validated_against_impl"] += 1
         spec_broken = any(not c for _, _, c in fs)
+        if r.get("bad_steps"):       # the concrete size: replay only that step
+            script = "\n".join(script_of([x if not x.startswith("sweep ") else "sweep %d 1" % r["bad_steps"][0] for x in ls]))
         for key, what, corr in fs:
             if key in reported:
                 continue
             reported.add(key)
             run.violation(key, what + "   [case %s]" % name, script + "\n--- output\n" + "\n".join(l[:300] for l in r["lines"] if not l.startswith(("O ", "L ", "D ", "T ", "allocseq")))[:6000],
                           no_input=corr and not spec_broken)
-    run.cov["rule"] = "one case = source x flags x pre-history x file offset; per case: 8 rejected adoptions, 1 adoption, 26 calls on the adopted copy each in its own process; non-trivial = adoption succeeded"
+    run.cov["rule"] = "sweep case = 67 consecutive sizes 8 bytes apart (length/write/file part only); one case = source x flags x pre-history x file offset; per case: 8 rejected adoptions, 1 adoption, 26 calls on the adopted copy each in its own process; non-trivial = adoption succeeded"
     run.assumptions += [
         "the calls on an adopted copy are modelled as a table (guard / region written), tied to the code by running every call on a really adopted, PROT_READ-mapped copy; the table is not derived from the function bodies",
         "hwloc_shmem_topology_write refreshes the source topology before duplicating it: length_suffices is stated for the tree that is written; that the refresh does not add blocks after get_length is checked on the executed cases (file tail, PROT_NONE page), not proved",
